@@ -105,7 +105,7 @@ def ensure_facts(repo=REPO, config="default", target_dir=None, quiet=False):
         fdir = os.path.join(CACHE, "facts")
         if os.path.isdir(fdir):
             olds = sorted((os.path.getmtime(os.path.join(fdir, d)), d) for d in os.listdir(fdir))
-            for _, d in olds[:-3]:
+            for _, d in olds[:-14]:
                 shutil.rmtree(os.path.join(fdir, d), ignore_errors=True)
         if os.path.isdir(out):
             shutil.rmtree(out)
